@@ -426,12 +426,24 @@ func copyDir(src, dst string) {
 	}
 }
 
-// knownPanics counts occurrences of the known finding C42-add-panic-after-overflow.
-var knownPanics int
+// occurrences of open known findings (reported to the check in Summary.Extra["pending"])
+type pendingFinding struct {
+	Count  int `json:"count"`
+	Sample any `json:"sample"`
+}
+
+var pending = map[string]*pendingFinding{}
+
+func notePending(id string, sample any) {
+	if pending[id] == nil {
+		pending[id] = &pendingFinding{Sample: sample}
+	}
+	pending[id].Count++
+}
 
 // addPooled calls AddPooledTx.
 //
-// TODO-KNOWN-FINDING C42-add-panic-after-overflow: when the pool is already over its capacity (a
+// KNOWN-FINDING C42-add-panic-after-overflow (open, known_findings.json): when the pool is already over its capacity (a
 // Reset reinjected reorged-out transactions beyond Datacap) the eviction loop of addLocked can drop
 // two or more transactions of the adding account; drop() nils the tail of the very slice addLocked
 // still holds, and the announcement check `txs[offset-1].announced` dereferences nil.  All state
@@ -447,7 +459,7 @@ func (s *sut) addPooled(ptx *blobpool.BlobTxForPool) (err error, panicked bool) 
 			if !ok || !strings.Contains(re.Error(), "nil pointer dereference") || !strings.Contains(stack, "blobpool.(*BlobPool).addLocked") {
 				panic(r)
 			}
-			knownPanics++
+			notePending("C42-add-panic-after-overflow", tl.M{"tx": abs(ptx.Tx.Hash()), "panic": re.Error(), "pool_before": lastPooled})
 			err, panicked = nil, true
 		}
 	}()
@@ -714,6 +726,16 @@ func run(tr *tl.Trace, root string, in act, next func(i int) *act, sum *tl.Summa
 			tl.Fatal("harness produced a transaction outside the modelled error classes: %+v: %s", a.Tx, cls)
 		}
 		st := s.project()
+		if !lastAligned && (a.Op == "reset" || a.Op == "crash" || a.Op == "reopen") {
+			// fingerprint of C42-recheck-gap-after-overlap: a recheck (Reset / Init) leaves a list that starts
+			// above the state nonce; misalignment produced by any other operation fails NonceContiguous
+			notePending("C42-recheck-gap-after-overlap", tl.M{"op": a.Op, "idx": lastPooled, "state_nonce": s.chain.head.abs.Nonce})
+		}
+		if !lastLimboExact && a.Op == "reset" {
+			// fingerprint of C42-limbo-stale-block: after a Reset a pooled transaction that a canonical block
+			// above finality includes is missing from the limbo or filed under another block number
+			notePending("C42-limbo-stale-block", tl.M{"op": a.Op, "id": a.ID, "final": a.Final, "limbo": st["limbo"]})
+		}
 		seenStates[fmt.Sprint(st["idx"], st["limbo"])] = true
 		ev := tl.M{"op": a.Op, "err": cls, "state": st, "id": a.ID, "tip": a.Tip, "final": a.Final, "tx": 0, "block": 0,
 			"disk": []int{}, "ldisk": []int{}}
@@ -1055,7 +1077,7 @@ func main() {
 	default:
 		tl.Fatal("bad mode")
 	}
-	sum.Extra["known_panics_C42_add_panic_after_overflow"] = knownPanics
+	sum.Extra["pending"] = pending
 	sum.Write(*out)
 	if len(sum.Violations) > 0 {
 		os.Exit(1)
